@@ -271,8 +271,7 @@ func build(c Case) (*Prog, error) {
 					if cnt.Cmp(big.NewInt(maxExcludedAlloc)) > 0 {
 						p.Skip = "range-with-more-than-2^20-elements"
 					} else if ovf {
-						p.Heavy, p.Group = true, "overflow"
-						p.SigOp, p.SigArg = "range", "counter-overflow"
+						p.SigOp, p.SigArg = "range", "counter-overflow" // signature of the (repaired) run-away loop, should it return
 					}
 				}
 			}
@@ -313,7 +312,15 @@ type Space struct {
 	builtins []string
 
 	valsBuilt bool
+	thorough  bool
 }
+
+// Sub-alphabets of the quick tier (every kind and the boundary values kept); the thorough tier uses all of val.All().
+var quickPairAlphabet = []string{"undefined", "true", "false", "i0", "i1", "i-1", "i3", "imin", "imax", "f0", "f1.5", "fnan",
+	"ca", "cmax", "s-empty", "s-a", "s-12", "s-badutf8", "b-empty", "b-a", "a-empty", "a-123", "ia-123", "m-empty", "m-a1", "im-a1",
+	"e-x", "t-ref", "fn-builtin", "fn-user"}
+var quickBuiltinAlphabet = []string{"undefined", "true", "i0", "i1", "i-1", "imin", "imax", "f1.5", "fnan", "ca", "s-a", "s-12", "b-a",
+	"a-123", "ia-123", "m-a1", "im-a1", "e-x", "t-ref", "fn-user"}
 
 func (s *Space) Len() int { s.buildVals(); return len(s.atoms) + len(s.vals) }
 
@@ -348,9 +355,8 @@ func (s *Space) At(i int) Case {
 }
 
 // Kind tells the scheduler (without building program text) how a case is run:
-// "light" (batched), "single" (light, but expected to kill its worker: one per message),
-// "heavy" (memory/time hungry: few at a time) or "overflow" (expected never to return:
-// dedicated workers with a 2 GiB limit).
+// "light" (batched), "single" (expected to kill its worker: run alone in fresh workers
+// right away) or "heavy" (memory/time hungry: few at a time).
 func (s *Space) Kind(i int) string {
 	if i < len(s.atoms) {
 		a := s.atoms[i]
@@ -359,27 +365,32 @@ func (s *Space) Kind(i int) string {
 		}
 		at := allAtoms()[a.atom]
 		switch {
-		case at.Group == "overflow":
-			return "overflow"
 		case at.Group == "cyclic":
 			return "single"
 		case at.Heavy:
 			return "heavy"
 		}
-		return "light"
-	}
-	s.buildVals()
-	v := s.vals[i-len(s.atoms)]
-	if vfamNames[v.fam] == "builtin" && s.builtins[v.op] == "range" && v.n == 3 {
-		if p, err := build(s.At(i)); err == nil && p.Group == "overflow" {
-			return "overflow"
-		}
 	}
 	return "light"
 }
 
+// quickShapes are the cyclic shapes of the quick tier (all operations, main placement).
+var quickShapes = []string{"cyclic-array", "cyclic-map", "cyclic-immutable-array"}
+
+func quickSkipsShape(a *Atom) bool {
+	if !strings.HasPrefix(a.Name, "cyc/") {
+		return false
+	}
+	for _, sh := range quickShapes {
+		if strings.HasPrefix(a.Name, "cyc/"+sh+"/") {
+			return false
+		}
+	}
+	return true
+}
+
 // cyclicEverywhere selects the part of the cyclic matrix that the thorough tier puts into all seven placements
-// (the whole matrix is run in main and function placement): every cyclic case costs four worker processes.
+// (the whole matrix is run in main and function placement): every crashing cyclic case costs three worker processes.
 func cyclicEverywhere(a *Atom) bool {
 	if a.Group != "cyclic" {
 		return false
@@ -394,20 +405,9 @@ func cyclicEverywhere(a *Atom) bool {
 	return false
 }
 
-func quickSkipsShape(a *Atom) bool {
-	for _, sh := range []string{"cyclic-map-in-array", "cyclic-frozen-array", "cyclic-host-map"} {
-		if strings.HasPrefix(a.Name, "cyc/"+sh+"/") {
-			return true
-		}
-	}
-	return false
-}
-
 func placementsFor(a *Atom, thorough bool) []string {
 	if thorough {
 		switch a.Group {
-		case "overflow":
-			return []string{"main", "func", "module"}
 		case "limit", "deep-heavy":
 			return []string{"main", "func"}
 		case "cyclic":
@@ -420,6 +420,9 @@ func placementsFor(a *Atom, thorough bool) []string {
 	}
 	switch a.Group {
 	case "light":
+		if a.NonTerm {
+			return []string{"main", "func", "module"} // each case spins for 3 x 2 s
+		}
 		return placements
 	case "deep":
 		return []string{"main", "func"}
@@ -461,7 +464,7 @@ func inputsCompatible(a, b *Atom) bool {
 }
 
 func enumerate(thorough bool) *Space {
-	s := &Space{}
+	s := &Space{thorough: thorough}
 	plIdx := map[string]int8{}
 	for i, p := range placements {
 		plIdx[p] = int8(i)
@@ -477,7 +480,7 @@ func enumerate(thorough bool) *Space {
 			continue
 		}
 		if !thorough && quickSkipsShape(a) {
-			continue // three of the ten cyclic shapes: thorough tier only
+			continue // seven of the ten cyclic shapes: thorough tier only
 		}
 		for _, p := range placementsFor(a, thorough) {
 			s.atoms = append(s.atoms, acase{atom: int32(ai), pl: plIdx[p]})
@@ -525,8 +528,26 @@ func (s *Space) buildVals() {
 		copy(v.args[:], args)
 		s.vals = append(s.vals, v)
 	}
-	n := int16(len(V))
-	for a := int16(0); a < n; a++ {
+	// the alphabets: all of V (thorough) or the quick sub-alphabets (names missing from V are skipped)
+	var pairA, builtinA []int16
+	if s.thorough {
+		for i := range V {
+			pairA = append(pairA, int16(i))
+		}
+		builtinA = pairA
+	} else {
+		for _, n := range quickPairAlphabet {
+			if i, ok := idx[n]; ok {
+				pairA = append(pairA, i)
+			}
+		}
+		for _, n := range quickBuiltinAlphabet {
+			if i, ok := idx[n]; ok {
+				builtinA = append(builtinA, i)
+			}
+		}
+	}
+	for _, a := range pairA {
 		for o := range unOps {
 			add("unary", o, a)
 		}
@@ -534,7 +555,7 @@ func (s *Space) buildVals() {
 		for o := range selNames {
 			add("selector", o, a)
 		}
-		for b := int16(0); b < n; b++ {
+		for _, b := range pairA {
 			for o := range binOps {
 				add("expr2", o, a, b)
 			}
@@ -543,7 +564,7 @@ func (s *Space) buildVals() {
 		}
 	}
 	idxAlpha := []string{"omitted", "undefined", "i-1", "i0", "i1", "i2", "i3", "imax", "imin", "s-0", "f1.5"}
-	for a := int16(0); a < n; a++ {
+	for _, a := range pairA {
 		switch V[a].Kind {
 		case "array", "imarray", "string", "bytes", "map", "undefined", "int":
 		default:
@@ -565,9 +586,9 @@ func (s *Space) buildVals() {
 	}
 	for bi := range s.builtins {
 		add("builtin", bi)
-		for x := int16(0); x < n; x++ {
+		for _, x := range builtinA {
 			add("builtin", bi, x)
-			for y := int16(0); y < n; y++ {
+			for _, y := range builtinA {
 				add("builtin", bi, x, y)
 			}
 		}
